@@ -357,7 +357,7 @@ def _run_machine(ctx, acc, check, machine_cls, *, seed, n, steps):
     except Violation as v:
         acc.fail(check, holder.get("history", []), v.observed, v.expected, known=v.known, bucket=v.bucket)
         return False
-    except hypothesis.errors.Flaky as e:
+    except (hypothesis.errors.Flaky, getattr(hypothesis.errors, "FlakyStrategyDefinition", hypothesis.errors.Flaky)) as e:
         # machines over inherently non-deterministic behaviour (fresh randomness per step) may record the violation
         # they saw in holder["violation"]: it is real even though the replay of the same steps does not repeat it
         v = holder.get("violation")
